@@ -86,6 +86,17 @@ pub fn probe(args: &[String]) -> i32 {
         Some("ladder") => c03::probe_ladder(&args[1..]),
         Some("filter-ladder") => c09::probe_ladder(&args[1..]),
         Some("c14-schedule") => c14::probe_schedule(&args[1..]),
+        Some("replay-file") => {
+            // `hv probe replay-file <prop> <file>`: exit 0 pass, 3 fail (used by the hang watchdog with a timeout)
+            let (Some(p), Some(f)) = (args.get(1), args.get(2)) else { return 2 };
+            let Ok(text) = std::fs::read_to_string(f) else { return 2 };
+            let Ok(j) = serde_json::from_str::<J>(&text) else { return 2 };
+            let mut rec = crate::runner::Rec::new();
+            match replay(p, j["kind"].as_str().unwrap_or(""), &j["case"], &mut rec) {
+                Verdict::Pass => 0,
+                Verdict::Fail { .. } => 3,
+            }
+        }
         Some("capi") => c17::child(&args[1..]),
         Some("capi-one") => c17::child_one(&args[1..]),
         Some("null-sweep") => c18::child_null_sweep(),
